@@ -25,6 +25,8 @@ PAYLOADS = [
     # an apostrophe that is not a character constant, then m4 quotes glued to other text
     ("squote_idx", b"don't read tab[idx[0]] before it is set"), ("squote_m4open", b"it's a[[b"),
     ("charconsts", b"'[' ']' '\\'' x]]y [[z"), ("dquote_m4", b"\"]]\" \"[[\" w]]"),
+    # a single bracket glued to a quote sequence
+    ("brk_close", b"x[]]y"), ("brk_open", b"a][[b"), ("brk_mix", b"[]] ][[ [[] ]]["),
 ]
 # payloads that are valid C expressions (checked as stringified code too)
 CODE_PAYLOADS = [("idx", "a[b[i]]"), ("idx2", "x[[1]]".replace("[[1]]", "[y[1]]")), ("call", "f(g(1), 2)"),
